@@ -10,8 +10,8 @@ Sz(o) == [c \in 1..o.NC |-> o.L]
 ChromOrderBadRuns(r) == \E i \in 1..(Len(r) - 1) : r[i][1] > r[i+1][1]
 VerdictLong(o) ==
   IF o.obs.result \notin {"ok", "err", "silent"} THEN "did-not-return-normally"
-  ELSE IF ChromOrderBadRuns(o.runs) /\ o.obs.result = "ok" THEN "accepted-unrepresentable-input"
-  ELSE IF ChromOrderBadRuns(o.runs) /\ o.obs.result = "silent" THEN "refused-with-exit-status-0"
+  ELSE IF (ChromOrderBadRuns(o.runs) \/ o.bad # 0) /\ o.obs.result = "ok" THEN "accepted-unrepresentable-input"
+  ELSE IF (ChromOrderBadRuns(o.runs) \/ o.bad # 0) /\ o.obs.result = "silent" THEN "refused-with-exit-status-0"
   ELSE "ok"
 Verdict(o) ==
   IF "long" \in DOMAIN o THEN VerdictLong(o) ELSE
